@@ -296,6 +296,17 @@ def C12(ctx):
                 % (64 if ctx.quick else 8, ctx.seed % 8, 1 if ctx.quick else 6))
     gen_and_replay(ctx, "GenMmap", cfg, "mmapvec", "marginal_map / bb on 1/%d of the functions of 4 variables x 48 query lists" % (64 if ctx.quick else 8),
                    extra_replay=["--nv", 4, "--seed", ctx.seed], timeout=2400)
+    # the same for maximum expected utility: the utility of EVERY assignment of every list of decision variables, per variable order
+    for o in (ORDERS3 if not ctx.quick else [ORDERS3[ctx.seed % 6], ORDERS3[(ctx.seed + 3) % 6]]):
+        cfg = mkcfg(ctx, "GenMeu_3_%s.cfg" % o, "SPECIFICATION Spec\nCONSTANTS\n  NV = 3\n  PD = 1\n  Ord <- Ord%s\n  Sample = 1\n  Seed = %d\n  K = %d\nCHECK_DEADLOCK FALSE\n"
+                    % (o, ctx.seed, 1 if ctx.quick else 6))
+        gen_and_replay(ctx, "GenMeu", cfg, "meuvec", "meu / bb(EU) on all 256 functions of 3 variables x 4 decision lists x %d weight vectors, order %s" % (1 if ctx.quick else 6, o),
+                       extra_replay=["--nv", 3], timeout=1800)
+    if not ctx.quick:
+        for o in ("1234", "3142", "4321"):
+            cfg = mkcfg(ctx, "GenMeu_4_%s.cfg" % o, "SPECIFICATION Spec\nCONSTANTS\n  NV = 4\n  PD = 1\n  Ord <- Ord%s\n  Sample = 16\n  Seed = %d\n  K = 2\nCHECK_DEADLOCK FALSE\n"
+                        % (o, ctx.seed % 16))
+            gen_and_replay(ctx, "GenMeu", cfg, "meuvec", "meu / bb(EU) on 1/16 of the functions of 4 variables x 15 decision lists, order %s" % o, extra_replay=["--nv", 4], timeout=2400)
     ctx.assumptions += ["domain as stated in the property: probabilities k/8 summing to one off the query variables; MEU: "
                         "decision variables weigh (1,0), rewards >= 0 on the last variables of the order"]
     _bdd_family(ctx, "c12", "TraceBdd_C12.cfg")
